@@ -204,6 +204,44 @@ theorem artifact_snapshot (g0 : Graph V) (h0 : Init g0) (hist : List (Event V)) 
   rw [← h2.1, hcall]
   exact artifact_spec (replay_inv h0.inv _) i
 
+/-- likewise a `ParameterData` call returns the value its linearization point sees -/
+theorem paramData_snapshot (g0 : Graph V) (hist : List (Event V)) (S : List (LOp V))
+    (hS : Linearization g0 hist S) (pre post : List (LOp V)) (o : LOp V) (p : Nat) (x : V) (n : Nat)
+    (hp : g0 p = .param x n) (hsplit : S = pre ++ o :: post) (hcall : o.call = .paramData p) :
+    o.resp = .val ((lastUpd (pre.map (·.call)) p).getD x) := by
+  have hl := hS.legal
+  subst hsplit
+  simp only [List.map_append, List.map_cons] at hl
+  rw [replay_append] at hl
+  dsimp only at hl
+  have hlen : (replay g0 (pre.map (·.call))).2.length = (pre.map (·.resp)).length := by
+    simp [replay_length]
+  have h2 := (List.append_inj hl hlen).2
+  simp only [replay, List.cons.injEq] at h2
+  rw [← h2.1, hcall]
+  obtain ⟨n', hn'⟩ := replay_param hp (pre.map (·.call))
+  simp [seqStep, hn']
+
+/-- **nothing older than a completed update**: an operation `a` whose response precedes the
+    invocation of `b` in the history lies in the prefix that `b`'s linearization point sees
+    (so by `artifact_snapshot` / `paramData_snapshot` / `snapshot_params` its effect, or that of a
+    later update of the same parameter, is what `b` returns) -/
+theorem completed_before_is_visible (g0 : Graph V) (hist : List (Event V)) (S : List (LOp V))
+    (hS : Linearization g0 hist S) (pre post : List (LOp V)) (a b : LOp V)
+    (ha : a ∈ S) (hsplit : S = pre ++ b :: post)
+    (hrt : before hist a.respE b.invE = true) : a ∈ pre := by
+  have hb : b ∈ S := by rw [hsplit]; simp
+  have hbef := hS.realtime a ha b hb hrt
+  obtain ⟨l1, l2, heq, -, hbl2⟩ := (before_iff S a b).1 hbef
+  obtain ⟨m1, m2, rfl⟩ := List.append_of_mem hbl2
+  have hnd : S.Nodup := by
+    exact nodup_of_map _ hS.nodup
+  have heq2 : (l1 ++ a :: m1) ++ b :: m2 = pre ++ b :: post := by
+    rw [← hsplit, heq]; simp
+  have := split_unique heq2 (by rw [heq2, ← hsplit]; exact hnd)
+  rw [← this]
+  simp
+
 omit [DecidableEq V] in
 /-- … and that state's parameter valuation is exactly "initial value, overwritten by the last
     update linearized before": no mixture of two states, and — with the real-time clause of
